@@ -642,12 +642,30 @@ pub fn short_set(s: &BTreeSet<Uuid>) -> Vec<String> {
     s.iter().map(short_uuid).collect()
 }
 
-/// Record a violation, keeping at most two witnesses per signature per worker so that a frequent
-/// (e.g. known) finding can never crowd a different signature out of the run's witness list.
+/// Record a violation, keeping one witness per signature per worker so that a frequent (e.g.
+/// known) finding can never crowd a different signature out of the run's witness list.
 pub fn viol(acc: &mut kvcore::Acc, sig: &str, detail: Json) {
     let k = format!("violations.{sig}");
     acc.count(&k);
-    if acc.get(&k) <= 2 {
+    if acc.get(&k) <= 1 {
         acc.violation(sig, detail);
+    }
+}
+
+/// After the workers were merged: every signature that was counted must still have a witness in
+/// the run (the merge caps the witness list); otherwise the run must not end "held".
+pub fn check_witness_retention(run: &mut kvcore::Run) {
+    let have: BTreeSet<String> = run.acc.violations.iter().map(|v| v.signature.clone()).collect();
+    let counted: Vec<String> = run
+        .acc
+        .counters
+        .keys()
+        .filter_map(|k| k.strip_prefix("violations.").map(|s| s.to_string()))
+        .collect();
+    for sig in counted {
+        if !have.contains(&sig) {
+            run.acc
+                .inconclusive(&format!("a witness with signature {sig} was counted but dropped by the witness cap"));
+        }
     }
 }
